@@ -1,8 +1,7 @@
 package reduce
 
 import (
-	"fmt"
-	"strconv"
+	"math"
 
 	"github.com/grindlemire/go-lucene/internal/lex"
 	"github.com/grindlemire/go-lucene/pkg/lucene/expr"
@@ -396,8 +395,8 @@ func fuzzy(elems []any, nonTerminals []lex.Token, defaultField string) ([]any, [
 		return elems, nonTerminals, false
 	}
 
-	idistance, err := strconv.Atoi(distance.String())
-	if err != nil {
+	idistance, ok := distance.Left.(int)
+	if !ok || distance.Op != expr.Literal {
 		return elems, nonTerminals, false
 	}
 
@@ -441,8 +440,8 @@ func boost(elems []any, nonTerminals []lex.Token, defaultField string) ([]any, [
 		return elems, nonTerminals, false
 	}
 
-	fpower, err := toPositiveFloat(power.String())
-	if err != nil {
+	fpower, ok := toPositiveFloat(power)
+	if !ok {
 		return elems, nonTerminals, false
 	}
 
@@ -501,18 +500,19 @@ func drop[T any](stack []T, i int) []T {
 	return stack[:len(stack)-i]
 }
 
-func toPositiveFloat(in string) (f float64, err error) {
-	i, err := strconv.Atoi(in)
-	if err == nil && i > 0 {
-		return float64(i), nil
+func toPositiveFloat(in *expr.Expression) (f float64, ok bool) {
+	if in.Op != expr.Literal {
+		return f, false
 	}
 
-	pf, err := strconv.ParseFloat(in, 64)
-	if err == nil && pf > 0 {
-		return float64(pf), nil
+	switch v := in.Left.(type) {
+	case int:
+		return float64(v), v > 0
+	case float64:
+		return v, v > 0 && !math.IsInf(v, 0)
 	}
 
-	return f, fmt.Errorf("[%v] is not a positive float", in)
+	return f, false
 }
 
 // wrapLiteral will wrap a literal expression in an equals expression for a defaultField.
